@@ -298,13 +298,15 @@ _WAVE8 = {
  "C03": "Double-precision data held to 4096 eps64.",
  "C05": "Reference frequencies held in single precision; lazy chirps of nearly equal arguments (signals a few Hz apart in one graph, channels under a coarse print precision).",
  "C06": "Bands straddling 0 Hz.",
- "C07": "Item assignment and everything built on it (augmented assignment on elements / slices / masks, numpy.roll, fill); ufunc.at; the outer form of the arithmetic ufuncs; numbers and divisors in half / single precision containers.",
- "C08": "One-entry files on a day's grid of TMIDs; text layouts (blank lines, CRLF, no final newline); phases inside and next to an upward jump between two entries.",
- "C09": "Masked in-place ufuncs, NumPy's ufunc keywords (casting, order, subok, dtype) on Dask data; two lazy results of one transform whose Quantity keywords differ in unit or late digits, in one graph.",
+ "C07": "Item assignment and everything built on it (augmented assignment on elements / slices / masks, numpy.roll, fill, put); ufunc.at; the outer form of the arithmetic ufuncs; numbers and divisors in half / single precision containers.",
+ "C08": "One-entry files on a day's grid of TMIDs; text layouts (blank lines, CRLF, no final newline); phases inside and next to an upward jump between two entries; sessions a year and eight years apart in one file; rows removed in place after the intervals were read.",
+ "C09": "Masked in-place ufuncs, NumPy's ufunc keywords (casting, order, subok, dtype) on Dask data; two lazy results of one transform whose Quantity keywords differ in unit or late digits, in one graph; dtype= loops with other input types, weak Python scalars, casting='no', out= larger than the operands.",
  "C10": "Start time of a join bit for bit on generic UTC epochs; tuples and deques of pieces.",
  "C11": "Real-sampled reads against a conversion whose mixing ramp counts from the start of the file.",
  "C15": "The pair of normalised states straddling a half cycle; '#', '_' and 'F' in format specifications.",
- "C20": "Lazy transforms of a rank-8 array must not allocate a large probe while the graph is built.",
+ "C12": "Fractional requests on 8- and 16-bit integer data held to double precision.",
+ "C16": "Augmented assignments and in-place updates of values read from a signal; the baseband contract after assignments.",
+ "C20": "Lazy transforms of a rank-8 array must not allocate a large probe while the graph is built; no axis transformed; an argument given twice; axis=None; integer-like entries of axes.",
 }
 for _c in CHECKS:
     if _c["property_id"] in _WAVE8:
